@@ -592,7 +592,17 @@ def identity_shortcircuit(prog: Program) -> List[Instance]:
         rk = next((k.value for k in tcs[0].keywords if k.arg == "resolution"), tcs[0].args[1] if len(tcs[0].args) > 1 else None)
         okf = rk is not None and "npoints" in org.deps(rk) and short(tcs[0].args[0]) == pn[1]
         # on no branch may the densification be switched off
-        okf = okf and not any(isinstance(x, ast.Constant) and x.value is None for x in ast.walk(rk))
+        def _may_be_none(e, depth=0):
+            if e is None or depth > 4:
+                return False
+            if any(isinstance(x, ast.Constant) and x.value is None for x in ast.walk(e)):
+                return True
+            if isinstance(e, ast.Name):
+                rd = ReachingDefs(fp.node)
+                return any(_may_be_none(v, depth + 1) for (_n, _s, v, _k) in rd.reaching(enclosing_stmt(tcs[0]), e.id) if v is not None)
+            return False
+
+        okf = okf and not _may_be_none(rk)
         bufs = [n for n in walk_own(fp.node) if isinstance(n, ast.Call) and call_name(n) == "buffer"]
         okf = okf and all(b.lineno <= tcs[0].lineno for b in bufs)
     out.append(Instance("R-GUARDSEQ", f"{fp.qual}#densify-at-projection", OK if okf else BAD,
